@@ -50,3 +50,7 @@ claim('C13', 'finite-domain transfer-function extraction (my AST evaluator over 
       'C13.a every CliffordTableau update rule and exponent class == conjugation table of the textbook gate (exhaustive); C13.b rowsum phase function and row decoder; '
       'C13.c dispatcher calls the tested gate\'s rule with axes/exponent/global shift, SWAP = three CX; C13.d tableau and CH-form classify every exponent alike',
       'CH-form update algebra and amplitudes, measurement/rowsum loops, CliffordGate group laws, from_unitary, decompositions')
+claim('C14', 'finite-domain transfer-function extraction of the single-qubit Pauli product/phase functions against matrix products; literal-table agreement of encodings and eigenprojectors; sign-convention coherence of entry points',
+      'C14.a Pauli.third/relative_index/phased_pauli_product, MutablePauliString._imul_atom_helper and the dense per-term phase == Pauli group table (exhaustive); '
+      'C14.b integer/char encodings agree across classes; C14.c PAULI_EIGEN_MAP projectors; C14.e in-place multiply entry points use the side their name says',
+      'multi-qubit bookkeeping, PauliSum arithmetic, conjugation by Cliffords, expectation values, phasor decompositions')
